@@ -225,7 +225,7 @@ def make_fetcher(kind, fail_at):
 
 FETCH_KINDS = ['exception', 'oserror', 'boom', 'garbage', 'badbytes', 'badtuple']
 OPS = ['parse-malformed', 'parse-malformed', 'parse-bytes-bad', 'parse-bytes-bad-enc', 'parse-fetch-fault', 'parse-fetch-fault', 'parsefile-missing', 'parseurl-fault', 'parser-raising',
-       'parser-raising', 'parsestyle-bad', 'parsestyle-bytes', 'csscombine-fault', 'csscombine-ok', 'resolve-fault', 'replaceurls-fault', 'serialise-fault', 'serialise-fault', 'dom-reject', 'dom-reject', 'direct-objects',
+       'parser-raising', 'parsestyle-bad', 'parsestyle-bytes', 'csscombine-fault', 'csscombine-ok', 'resolve-fault', 'replaceurls-fault', 'serialise-fault', 'serialise-fault', 'twin-sheets', 'twin-sheets', 'dom-reject', 'dom-reject', 'direct-objects',
        'dom-mutator', 'dom-mutator', 'dom-mutator', 'restricted-profiles-roundtrip', 'parse-reentrant', 'parse-reentrant', 'serialise-weird', 'prefs-roundtrip', 'serializer-roundtrip', 'profile-roundtrip', 'validate-some', 'reuse-parser', 'reuse-parser', 'flip-mode', 'geturls', 'parse-ok', 'log-level']  # fmt: skip
 
 
@@ -417,6 +417,64 @@ class History:
                     c.log.raiseExceptions = mode
 
             out = self.sentinel_call(kind, fn, parse_family=False)
+        elif kind == 'twin-sheets':
+            # two sheets that say the same (one parsed from text; the other reached another way: an explicit encoding argument, or the same
+            # text followed by an edit that was refused) have the same future
+            T = '@charset "iso-8859-1";\n@media print {\n    a {\n        top: 0\n        }\n    }\nb {\n    left: 0\n    }'
+            H = 'http://h/twin.css'
+
+            def fetch(url):
+                return (None, '@charset "koi8-r";\u0436{top:0}'.encode('koi8-r')) if url.endswith('late.css') else None
+
+            way = r.randrange(5)
+            later = r.randrange(3)
+            mode = c.log.raiseExceptions
+            result = {}
+
+            def fn():
+                a = c.CSSParser(fetcher=fetch).parseString(T, href=H)
+                if way == 0:
+                    b = c.CSSParser(fetcher=fetch).parseString(T.split('\n', 1)[1].encode('iso-8859-1'), encoding='iso-8859-1', href=H)
+                else:
+                    b = c.CSSParser(fetcher=fetch).parseString(T, href=H)
+                    c.log.raiseExceptions = True
+                    try:
+                        [None,
+                         lambda s: setattr(s.cssRules[1], 'cssText', '@media tv {a {top: 0} @import "x";}'),
+                         lambda s: setattr(s.cssRules[1].media, 'mediaText', 'tv, 3d'),
+                         lambda s: setattr(s.cssRules[2], 'cssText', 'c {left: 0;} d'),
+                         lambda s: s.insertRule('@import "late.css";', 3)][way](b)
+                    except xml.dom.DOMException:
+                        result['refused'] = True
+                    finally:
+                        c.log.raiseExceptions = mode
+                result['same_now'] = a.cssText == b.cssText
+                out = []
+                for x in (a, b):
+                    if later == 0:
+                        rule = c.css.CSSImportRule(href='late.css')
+                        x.insertRule(rule, 1)
+                        out.append((rule.styleSheet.encoding if rule.styleSheet else None, rule.styleSheet.cssText if rule.styleSheet else None, x.cssText))
+                    elif later == 1:
+                        x.cssRules[1].media.appendMedium('tv')
+                        x.cssRules[2].style.setProperty('top', '1px')
+                        out.append(x.cssText)
+                    else:
+                        x.encoding = 'ascii'
+                        x.add('\u00e9{top:0}')
+                        out.append(x.cssText)
+                result['later'] = out
+
+            outc = self.sentinel_call(kind, fn, parse_family=False)
+            ctx.count('oracle.twin-sheets')
+            if outc == 'returned' and (way == 0 or result.get('refused')):
+                if not result.get('same_now'):
+                    ctx.violation('twin-sheets', {'kind': 'history', 'ops': list(self.ops)}, {'what': 'the two sheets differ before the later call (a refused edit left a trace / the explicit encoding is not recorded alike)', 'way': way}, features=[])
+                    return None
+                if result['later'][0] != result['later'][1]:
+                    ctx.violation('twin-sheets', {'kind': 'history', 'ops': list(self.ops)}, {'what': 'same text now, different result of the same later call', 'way': way, 'later': later, 'direct': str(result['later'][0])[:300], 'other': str(result['later'][1])[:300]}, features=[])
+                    return None
+            out = outc
         elif kind == 'dom-mutator':
             from checks import c11
 
